@@ -181,12 +181,81 @@ def gen_and_expect(rng, bpc, nops):
     return ops, exp, final, crossed
 
 
+def ref_run(ops):
+    """the byte-buffer reference on a GIVEN program (valid programs only: every open succeeds or is expected to fail as below)"""
+    files, handles, exp = {}, {}, []
+    for op in ops:
+        k = op[0]
+        if k == "open":
+            _, h, name, mode = op
+            f = files.get(name)
+            if f is None and mode in ("r", "r+"):
+                exp.append(("err", "RNF"))
+                continue
+            if f is not None and "x" in mode:
+                exp.append(("err", "FEXISTS"))
+                continue
+            if f is None:
+                f = files[name] = RefFile()
+            handles[h] = RefHandle(f, mode)
+            exp.append(("ok", None))
+            continue
+        hd = handles[op[1]]
+        size = len(hd.f.data)
+        if k == "seek":
+            off, wh = op[2], (op[3] if len(op) > 3 else 0)
+            hd.pos = off if wh == 0 else hd.pos + off if wh == 1 else size + off
+            exp.append(("ok", hd.pos))
+        elif k == "tell":
+            exp.append(("ok", hd.pos))
+        elif k == "read":
+            n = op[2]
+            data = bytes(hd.f.data[hd.pos:] if n < 0 else hd.f.data[hd.pos:hd.pos + n])
+            hd.pos += len(data)
+            exp.append(("ok", data))
+        elif k == "write":
+            data = bytes.fromhex(op[2])
+            if hd.appending and data:
+                hd.pos = size
+            hd.f.data[hd.pos:hd.pos + len(data)] = data
+            hd.pos += len(data)
+            exp.append(("ok", len(data)))
+        elif k == "truncate":
+            new = hd.pos if op[2] is None else op[2]
+            if new < size:
+                del hd.f.data[new:]
+            else:
+                hd.f.data.extend(b"\0" * (new - size))
+            exp.append(("ok", new))
+        elif k == "hclose":
+            del handles[op[1]]
+            exp.append(("ok", None))
+    return exp, {n: bytes(f.data) for n, f in files.items()}
+
+
+def scripted(bpc):
+    """fixed programs run before the random ones on every volume (minimised past misses)"""
+    A, B = "/F0.BIN", "/F1.BIN"
+    return [
+        # truncate AT the current position, on a cluster multiple inside the file: the cursor must come back to the end of the last kept
+        # cluster; then write (C02-m4: seek() returned early when the offset equals the position); with a neighbour taking the freed cluster
+        [["open", "h1", A, "w+"], ["write", "h1", "41" * (3 * bpc)], ["seek", "h1", 2 * bpc, 0], ["truncate", "h1", None], ["tell", "h1"],
+         ["open", "h2", B, "w"], ["write", "h2", "42" * (bpc + 3)], ["hclose", "h2"], ["write", "h1", "43" * 10], ["seek", "h1", 0, 0], ["read", "h1", -1],
+         ["hclose", "h1"], ["open", "h3", B, "r"], ["read", "h3", -1], ["hclose", "h3"]],
+        [["open", "h1", A, "w+"], ["write", "h1", "51" * (2 * bpc)], ["seek", "h1", bpc, 0], ["truncate", "h1", bpc], ["write", "h1", "52" * (bpc + 1)],
+         ["seek", "h1", 0, 2], ["tell", "h1"], ["seek", "h1", 0, 0], ["read", "h1", -1], ["hclose", "h1"]],
+        # tell / seek(0, 1) between writes, seek to the position already held
+        [["open", "h1", A, "w+"], ["write", "h1", "61" * bpc], ["seek", "h1", bpc, 0], ["write", "h1", "62" * 5], ["seek", "h1", 0, 1], ["tell", "h1"],
+         ["seek", "h1", bpc + 5, 0], ["write", "h1", "63" * bpc], ["seek", "h1", bpc, 0], ["read", "h1", 7], ["hclose", "h1"]],
+    ]
+
+
 def run(ctx):
     vols = VOLS + (VOLS_T if ctx.tier == "thorough" else [])
     m = Model()
     built = {}
     try:
-        for i in range(ctx.scale(40, 600)):
+        for i in range(ctx.scale(40, 600) + len(vols) * 3):
             if ctx.time_left() < 10:
                 break
             label, kw = vols[i % len(vols)]
@@ -194,7 +263,14 @@ def run(ctx):
                 built[label] = garbage_volume(**kw)
             img, info = built[label]
             rng = random.Random(ctx.rng.randrange(1 << 62))
-            ops, exp, final, crossed = gen_and_expect(rng, info["bpc"], ctx.scale(50, 120))
+            sp = scripted(info["bpc"])
+            if i < len(vols) * len(sp):           # every scripted program on every volume first
+                ops = sp[i // len(vols)]
+                exp, final = ref_run(ops)
+                crossed = True
+                ctx.dist["scripted"] += 1
+            else:
+                ops, exp, final, crossed = gen_and_expect(rng, info["bpc"], ctx.scale(50, 120))
             meta = dict(source="build+garbage", **kw)
             rep = dict(volume=meta, volume_label=label, ops=[o if o[0] != "write" else ["write", o[1], o[2]] for o in ops])
             ctx.evaluations += 1
